@@ -29,6 +29,14 @@ Definition no_trailing (b : Z) (cs : stream) : Prop := ends_nt b (map cend cs).
 Definition chunking_of (dt : Z) (run : option Z) (R : list row) (a b : Z) (cs : stream) : Prop :=
   tiles R a b cs /\ uniform dt run cs /\ no_trailing b cs.
 
+(* the same without the condition on the end of the run (what the overlap-window kind delivers, C09) *)
+Definition chunking_core (dt : Z) (run : option Z) (R : list row) (a b : Z) (cs : stream) : Prop :=
+  tiles R a b cs /\ uniform dt run cs.
+
+Lemma chunking_of_core dt run R a b cs :
+  chunking_of dt run R a b cs <-> chunking_core dt run R a b cs /\ no_trailing b cs.
+Proof. unfold chunking_of, chunking_core. tauto. Qed.
+
 Definition same_data (c c' : chunk) : Prop :=
   cstart c' = cstart c /\ cend c' = cend c /\ crows c' = crows c.
 
@@ -181,17 +189,27 @@ Proof.
     + cbn [map]. rewrite O2, S2, Mo. reflexivity.
 Qed.
 
+Theorem run_local_core m h dt run R a b cs :
+  local_comp h -> chunking_core dt run R a b cs ->
+  exists out, run_local m h cs = Ok out /\ chunking_core (o_dtype m) (o_run m) (h R) a b out /\
+              (no_trailing b cs -> no_trailing b out).
+Proof.
+  intros L ((Hne & W & TT & Ch & HR) & U).
+  destruct (iter_single_spec dt run cs a b Hne W U Ch) as (calls & Ei & F & _).
+  destruct (map_local_tiles m h L cs calls a b W TT F Ch) as (out & Em & Wo & Cho & Ro & Uo & Lo & To & Mo).
+  exists out. unfold run_local. rewrite Ei. cbn [res_bind]. split; [exact Em|].
+  split; [|unfold no_trailing; rewrite Mo; auto]. split; [|exact Uo]. split; [|split; [|split; [|split]]]; auto.
+  - intros ->. destruct cs; [congruence|discriminate].
+  - rewrite Ro, <- (lc_flat h L), HR. reflexivity.
+Qed.
+
 Theorem run_local_correct m h dt run R a b cs :
   local_comp h -> chunking_of dt run R a b cs ->
   exists out, run_local m h cs = Ok out /\ chunking_of (o_dtype m) (o_run m) (h R) a b out.
 Proof.
-  intros L ((Hne & W & TT & Ch & HR) & U & NT).
-  destruct (iter_single_spec dt run cs a b Hne W U Ch) as (calls & Ei & F & _).
-  destruct (map_local_tiles m h L cs calls a b W TT F Ch) as (out & Em & Wo & Cho & Ro & Uo & Lo & To & Mo).
-  exists out. unfold run_local. rewrite Ei. cbn [res_bind]. split; [exact Em|].
-  split; [|split; [exact Uo|unfold no_trailing; rewrite Mo; exact NT]]. split; [|split; [|split; [|split]]]; auto.
-  - intros ->. destruct cs; [congruence|discriminate].
-  - rewrite Ro, <- (lc_flat h L), HR. reflexivity.
+  intros L HC. apply chunking_of_core in HC as [HC NT].
+  destruct (run_local_core m h dt run R a b cs L HC) as (out & E & HO & HN).
+  exists out. split; [exact E|]. apply chunking_of_core. auto.
 Qed.
 
 (* instances: row-wise maps that keep the interval of every row, and filters *)
@@ -295,11 +313,11 @@ Proof.
   - apply (IH (cend c)); auto.
 Qed.
 
-Theorem run_exhaust_correct m f dt run R a b cs :
-  whole_comp f -> chunking_of dt run R a b cs ->
+Theorem run_exhaust_core m f dt run R a b cs :
+  whole_comp f -> chunking_core dt run R a b cs ->
   exists out, run_exhaust m f cs = Ok out /\ chunking_of (o_dtype m) (o_run m) (f R) a b out.
 Proof.
-  intros Wf ((Hne & W & TT & Ch & HR) & U & NT).
+  intros Wf ((Hne & W & TT & Ch & HR) & U).
   destruct cs as [|c cs]; [congruence|].
   inversion W as [|? ? Wc Wcs]; subst. inversion U as [|? ? [U1 U2] Ucs]; subst.
   pose proof Ch as Ch0. cbn in Ch. destruct Ch as [Cs Ch].
@@ -323,6 +341,11 @@ Proof.
   - cbn. split; congruence.
   - cbn. rewrite app_nil_r, O3, HRb. reflexivity.
 Qed.
+
+Theorem run_exhaust_correct m f dt run R a b cs :
+  whole_comp f -> chunking_of dt run R a b cs ->
+  exists out, run_exhaust m f cs = Ok out /\ chunking_of (o_dtype m) (o_run m) (f R) a b out.
+Proof. intros Wf HC. apply chunking_of_core in HC as [HC _]. apply (run_exhaust_core m f dt run R a b cs Wf HC). Qed.
 
 (* rows with the same intervals, one by one *)
 Definition same_ivs (rows rows' : list row) : Prop :=
